@@ -160,7 +160,7 @@ func (h *Handler) handleQuery(r *http.Request, w http.ResponseWriter, query *add
 	if query.Prop != nil {
 		var addressData addressDataReq
 		if err := query.Prop.Decode(&addressData); err != nil && !internal.IsNotFound(err) {
-			return err
+			return &internal.HTTPError{Code: http.StatusBadRequest, Err: err}
 		}
 		req, err := decodeAddressDataReq(&addressData)
 		if err != nil {
@@ -215,7 +215,7 @@ func (h *Handler) handleMultiget(ctx context.Context, w http.ResponseWriter, mul
 	if multiget.Prop != nil {
 		var addressData addressDataReq
 		if err := multiget.Prop.Decode(&addressData); err != nil && !internal.IsNotFound(err) {
-			return err
+			return &internal.HTTPError{Code: http.StatusBadRequest, Err: err}
 		}
 		decoded, err := decodeAddressDataReq(&addressData)
 		if err != nil {
